@@ -162,7 +162,7 @@ pub fn run_c07(out: &mut Out) {
         let n = rng.range(1, 6) as usize;
         let c = rng.range(4, 12) as usize;
         let d = rng.range(0, 6) as usize;
-        let with_progress = r % 6 == 0;
+        let with_progress = r % 2 == 0 || (r % 5 == 3 && d >= 1);
         if !out.selected(&id) {
             continue;
         }
